@@ -40,7 +40,7 @@ func worldC08(w *World) {
 		}
 		nf := t.Range(1, maxFail, "failures")
 		for i := 0; i < nf; i++ {
-			k := []string{"5xx", "garbled", "truncated", "404", "refused", "hang", "dropped-fin", "dropped-rst", "retry-after"}[t.Pick("failkind", 6, 3, 2, 2, 2, 1, 2, 2, 3)]
+			k := []string{"5xx", "garbled", "truncated", "404", "refused", "hang", "dropped-fin", "dropped-rst", "retry-after", "cut200", "401"}[t.Pick("failkind", 6, 3, 2, 2, 2, 1, 2, 2, 3, 2, 2)]
 			if k == "hang" && i > 3 {
 				k = "5xx" // keep simulated time per run bounded (each hang costs the 60 s client timeout)
 			}
@@ -53,6 +53,17 @@ func worldC08(w *World) {
 		for i := 0; i < ns; i++ {
 			script = append(script, step{kind: "ok", wait: []time.Duration{500 * time.Millisecond, 3 * time.Second, 29 * time.Second}[t.Choice(3, "okwait")]})
 		}
+	}
+	// the agent may run on a VM (its client then carries the VM identity)
+	if t.Rare(1, 4, "gce") {
+		sim.GCE.On = true
+		sim.GCE.Get = func(path string) (string, error) {
+			if strings.Contains(path, "/identity") {
+				return "vm-identity-token", nil
+			}
+			return "sa@project.iam.gserviceaccount.example", nil
+		}
+		w.Probe("agent_on_a_vm")
 	}
 	fp := NewFakeProxy(w)
 	workIDs := []string{"w0", "w1", "w2"}
@@ -85,6 +96,9 @@ func worldC08(w *World) {
 		case "404":
 			w.K.Count("fault.list_404")
 			return 404, []byte("nope")
+		case "401":
+			w.K.Count("fault.list_401")
+			return 401, []byte("unauthorised")
 		case "retry-after":
 			// (the header is added by the connection-level wrapper below)
 			w.K.Count("fault.list_503_retry_after")
@@ -149,6 +163,23 @@ func worldC08(w *World) {
 							} else {
 								c.Close()
 							}
+						}
+					}
+					return
+				case "cut200":
+					// a 200 whose announced body never starts: the connection ends after the header block
+					fp.mu.Lock()
+					fp.ListCalls = append(fp.ListCalls, ListCall{At: w.K.Now(), Seq: w.K.Seq()})
+					fp.mu.Unlock()
+					w.K.Count("fault.list_200_body_cut_before_first_byte")
+					if hj, ok := rw.(http.Hijacker); ok {
+						if c, _, err := hj.Hijack(); err == nil {
+							c.Write([]byte("HTTP/1.1 200 OK\r\nContent-Type: application/json\r\nContent-Length: 100\r\n\r\n"))
+							fp.mu.Lock()
+							fp.ListCalls[n].Done = w.K.Now()
+							fp.ListCalls[n].Status = -4
+							fp.mu.Unlock()
+							c.Close()
 						}
 					}
 					return
